@@ -138,6 +138,11 @@ def problems(pool, tier):
         S3 = gmat(3, 3, 1)
         S3[:, 1] = 0.0
         ps.insert(1, ("solve", (S3, gmat(3, 1, 2))))
+        # a twin of the 3 x 3 system with the same shape and a bitwise equal Frobenius norm (one entry negated): anything remembered under a
+        # cheap fingerprint of the matrix (shape, norm, trace of moduli) is stale for it
+        T3 = gmat(3, 3, 1)
+        T3[1, 1] = -T3[1, 1]
+        ps.append(("solve", (T3, gmat(3, 1, 2))))
         return ps
     if pool == "any":
         ps = [("compute", (gmat(2, 2, 3),)), ("compute", (gmat(4, 4, 3, rank=2),)), ("compute", (np.zeros((3, 2, 4)),)), ("compute", (gmat(2, 4, 3),))]
@@ -213,7 +218,7 @@ def cases(tier, seed):
     global _REF
     cs = cells()
     npool = 4 if tier == "quick" else 5
-    npools = {c["id"]: npool + (1 if c["pool"] == "sys" else 0) for c in cs}
+    npools = {c["id"]: npool + (2 if c["pool"] == "sys" else 0) for c in cs}
     jobs = [(c, pi, tier, alt) for c in cs for pi in range(npools[c["id"]]) for alt in (0, 1)]
     ctx = mp.get_context("fork")
     with ctx.Pool(min(16, len(jobs)), maxtasksperchild=1) as pool:
@@ -567,9 +572,13 @@ def run_case(case, seed):
         for name, fn, args, rnd in battery(lib):
             tags = {"grp": "battery", "fn": name}
             h0 = arg_hash(args)
+            attrs0 = [sorted(vars(x)) if hasattr(x, "__dict__") and not isinstance(x, np.ndarray) else None for x in args]
             np.random.seed(777)
             ok1, r1 = call(fn, *args)
             h1 = arg_hash(args)
+            attrs1 = [sorted(vars(x)) if hasattr(x, "__dict__") and not isinstance(x, np.ndarray) else None for x in args]
+            if attrs0 != attrs1:
+                fails.append(fail("argument_mutated", f"{name} left new attributes on an argument object: {[sorted(set(b) - set(a)) for a, b in zip(attrs0, attrs1) if a != b]}", **tags))
             np.random.seed(777)
             ok2, r2 = call(fn, *args)
             evals += 2
@@ -601,6 +610,28 @@ def run_case(case, seed):
                     fails.append(fail("stale_result_after_inplace_update", f"{name}: after overwriting the argument in place the call returns a different value than on a fresh copy of the same data", **tags))
                 elif okf and ok1 and canon_plain(rf) == c1 and name not in SCALE_BLIND and not name.startswith("struct:"):
                     fails.append(fail("battery_alt_not_discriminating", f"{name}: alternate data gives the same result (check design)", **tags))
+            # the same for a sparse container as first argument: the caller updates its coefficient planes in place between two calls
+            if args and type(args[0]).__name__ == "SparseQuaternionMatrix" and ok1:
+                from checks.common import to_sparse as _to_sparse, sparse_to_arr as _sparse_to_arr
+                S = args[0]
+                saved = [c.data.copy() for c in (S.real, S.i, S.j, S.k)]
+                for t_, c in enumerate((S.real, S.i, S.j, S.k)):
+                    c.data *= 1.5
+                    if c.data.size:
+                        c.data[0] += 0.25 * (t_ + 1)
+                fresh = _to_sparse(lib, _sparse_to_arr(S))
+                np.random.seed(777)
+                oki, ri = call(fn, *args)
+                ci = canon_plain(ri) if oki else None
+                np.random.seed(777)
+                okf, rf = call(fn, fresh, *args[1:])
+                for c, d in zip((S.real, S.i, S.j, S.k), saved):
+                    c.data[...] = d
+                evals += 2
+                if okf != oki or (okf and canon_plain(rf) != ci):
+                    fails.append(fail("stale_result_after_inplace_update", f"{name}: after the caller updated the sparse container in place the call returns a different value than on a fresh container with the same coefficients", **tags))
+                elif okf and canon_plain(rf) == canon_plain(r1) and name not in SCALE_BLIND:
+                    fails.append(fail("battery_alt_not_discriminating", f"{name}: updated sparse data give the same result (check design)", **tags))
             # read-only arguments: a routine that never writes into its arguments accepts them
             if any(isinstance(x, np.ndarray) for x in args):
                 ro_args = []
